@@ -726,8 +726,10 @@ Proof.
   assert (EB : boot32 (fst (run_from init (w_boot TYPE_BISTABLE FLAG_CFG_BTN :: w_quick_pre))) = 1) by (vm_compute; reflexivity).
   rewrite EL, EB. intros tc st r Hin R Hle.
   assert (T : 500000 <= tc <= 3200000).
-  { apply in_map_iff in Hin. destruct Hin as (k & E & Hk). inversion E; subst. apply in_rev in Hk. apply in_seq in Hk. lia. }
-  destruct R as [->|R]; [lia|]. apply in_map_iff in R. destruct R as (k & E & Hk). inversion E; subst. apply in_rev in Hk. apply in_seq in Hk. lia.
+  { apply in_map_iff in Hin. destruct Hin as (k & E & Hk). apply in_rev in Hk. apply in_seq in Hk.
+    assert (tc = 500000 + 300000 * Z.of_nat k) by congruence. clear - H Hk. lia. }
+  destruct R as [->|R]; [lia|]. apply in_map_iff in R. destruct R as (k & E & Hk). apply in_rev in Hk. apply in_seq in Hk.
+  assert (r = 500000 + 300000 * Z.of_nat k) by congruence. clear - H T Hk. lia.
 Qed.
 
 (* the wrap witness of Proofs.toggle_chain_u32_wrap_refuted_thm: its ten changes are 2^32 us apart, so the hypothesis of the
@@ -736,3 +738,39 @@ Lemma wrap_witness_changes_thm :
   map fst (changes 0 (firstn 20 w_wrap_toggles)) = map (fun k => 500000 + 4294967296 * Z.of_nat k) (rev (seq 0 10)) /\
   4294967296 > CHAIN_WINDOW_US.
 Proof. split; vm_compute; reflexivity. Qed.
+
+(* ------------------------------------------------------------------------------------------------ *)
+(* ActionTrigger ("advanced") input handler: there is no time test at the notification; the click counter is cleared by the
+   input's timer callback once MULTICLICK_TIME_MS have passed since the last change while the input is released (or is a
+   toggle switch / motion sensor) *)
+Lemma advanced_tick_more s i x s' o y :
+  advanced_tick s i x = (s', o) -> getn (inputs s) i = Some x -> i_armed x = true -> getn (inputs s') i = Some y ->
+  i_adv y = i_adv x /\ (i_armed y = false -> i_cnt y <= 0) /\
+  (((i_last x =? STATE_INACTIVE) || toggles x) = true -> MULTICLICK_TIME_MS * 1000 <= u32 (now32 s - i_lsc x) -> i_cnt y = 0).
+Proof.
+  unfold advanced_tick. cbv zeta. intros H G Ha Gy. revert H.
+  match goal with |- (match ?T with (_, _) => _ end = _) -> _ => set (TT := T) end.
+  assert (P : forall s1 x1 o1, TT = (s1, x1, o1) ->
+            i_last x1 = i_last x /\ i_type x1 = i_type x /\ i_lsc x1 = i_lsc x /\ i_adv x1 = i_adv x /\
+            (i_armed x1 = false -> i_cnt x1 <= 0) /\ (exists z, getn (inputs s1) i = Some z)).
+  { unfold TT. intros s1 x1 o1.
+    brk; intros E; inversion E; subst; cbn [i_last i_type i_lsc i_adv i_armed i_cnt upd_in];
+      repeat match goal with
+      | K : input_start_cfg _ = _ |- _ => apply input_start_cfg_out in K; destruct K as [[? ?]|(? & ? & K & _)]; subst
+      end;
+      (split; [reflexivity|]); (split; [reflexivity|]); (split; [reflexivity|]); (split; [reflexivity|]);
+      (split; [try (intros; lia); try (intros; congruence); try (destruct (hold_enabled _); intros; try lia; congruence)|]);
+      try (eexists; exact G); try (eexists; cbn [inputs set_input with_inputs]; eapply getn_setn_same; exact G);
+      try (eexists; rewrite K; cbn [inputs set_input with_inputs]; eapply getn_setn_same; exact G). }
+  destruct TT as [[s1 x1] o1]. destruct (P s1 x1 o1 eq_refl) as (L1 & L2 & L3 & L4 & L5 & (z & Gz)).
+  intros H; inversion H; subst s' o. cbn [inputs set_input with_inputs] in Gy. rewrite (getn_setn_same _ _ _ _ Gz) in Gy. inversion Gy; subst y. clear Gy.
+  assert (TG : toggles x1 = toggles x) by (unfold toggles; rewrite L2; reflexivity).
+  rewrite L1, TG, L3.
+  destruct ((i_last x =? STATE_INACTIVE) || toggles x) eqn:EC.
+  - destruct (MULTICLICK_TIME_MS * 1000 <=? u32 (now32 s - i_lsc x)) eqn:EM.
+    + cbn. repeat split; auto; intros; lia.
+    + apply Z.leb_gt in EM. destruct (i_maxc x1 <=? i_cnt x1).
+      * destruct (i_maxc x1 <=? 1); cbn; (split; [auto|]); (split; [intros; try lia; auto|intros; lia]).
+      * split; [auto|]. split; [auto|intros; lia].
+  - split; [auto|]. split; [auto|intros; discriminate].
+Qed.
